@@ -35,5 +35,6 @@ fn run(r: &mut Run) -> Result<(), MachineryError> {
     reps::char_pair_space(r, "C01/representative-pairs", M_C01, algs_default())?;
     escape_scan_space(r, "C01/escape-grammar-scan", M_C01, algs_default())?;
     word_seq_space(r, "C01/word-sequences", M_C01, algs_default())?;
+    word_seq_long_space(r, "C01/word-sequences-medium", M_C01, algs_default())?;
     scale::text_scale(r, "C01/long-paragraphs", "C01")
 }
